@@ -22,6 +22,24 @@ NOT_APPLICABLE = {
 }
 
 REGISTRY = {
+    "C02": {
+        "modules": ["c02"],
+        "level_text": "Contracts on the real index arithmetic and per-slot kernels of track initialization (extracted to C each run), discharged by CBMC for all sizes and thread ids: vacancy/initializer indices in range and injective, charge-partitioned vacancies of distinct threads distinct. The whole-run clauses (termination, counters over many steps, multi-event interleaving) rest on a paper lemma over these per-call contracts and are listed as not decided.",
+        "level_note": "Trusted: CBMC/dfcc/SAT; extraction rules; std::stable_partition/exclusive_scan/remove_if contracts assumed; atomics sequential. Not decided: loop termination, host glue (Stepper/CoreState), multi-event interleavings.",
+        "design_ref": "DESIGN.md 4 C02",
+        "trusted_base": ["assumed contracts of std::stable_partition, std::exclusive_scan, std::remove_if"],
+        "assumptions": [],
+        "not_decided": ["stepping loop reaches queued = alive = 0 (liveness)", "counters equal true counts after every step (paper lemma over per-kernel contracts)", "multiple events in flight"],
+    },
+    "C16": {
+        "modules": ["c16"],
+        "level_text": "Contracts on the real StackAllocator (extracted to C each run): an allocation succeeds iff it fits, hands out exactly the block [size, size+count) default-initialised and touches nothing else; a failing allocation returns null with the size restored and the storage untouched, for every capacity, fill level and count (loop contract, unbounded). The whole-event clauses are not decided.",
+        "level_note": "Trusted: CBMC/dfcc/SAT; extraction rules; atomic_add treated sequentially; size+count assumed not to wrap. Not decided: 'event completes with exact energy balance', stepping stops with a reported error (host CELER_VALIDATE paths).",
+        "design_ref": "DESIGN.md 4 C16",
+        "trusted_base": [],
+        "assumptions": [],
+        "not_decided": ["the event still completes with exact energy balance (whole-run)", "capacity CELER_VALIDATE precedes initializer writes in ExtendFromSecondariesAction/ExtendFromPrimariesAction (host .cc)", "CoreState::reset"],
+    },
     "C10": {
         "modules": ["c10"],
         "level_text": "Runtime side of the property only: contracts on the real LogicStack operations against an abstract stack view (every element, all 2^32 x 33 states) and on LogicEvaluator::operator() (lock-step loop invariant against a textbook array-stack evaluation, any string length) discharged by CBMC. The construction-side rewrites (CsgTree, simplifiers, De Morgan, postfix/infix builders) are host std::variant/unordered_map code outside the extractor's subset and are NOT decided.",
